@@ -17,7 +17,12 @@ def tok_case(tier):
     out = []
     x = X()
     for pid, p in sorted(pats.items()):
-        r, dt, ms = query([z3.InRe(x, p.plain), z3.Length(x) >= 1, z3.Length(x) <= 12])
+        # prefer a witness that contains a non-ASCII letter (case folding beyond ASCII is part of the property)
+        from ..rx.z3re import SIG
+        nonascii = z3.Concat(SIG, z3.Range("\u00c0", "\u024f"), SIG)
+        r, dt, ms = query([z3.InRe(x, z3.Intersect(p.plain, nonascii)), z3.Length(x) >= 1, z3.Length(x) <= 14])
+        if r != "sat":
+            r, dt, ms = query([z3.InRe(x, p.plain), z3.Length(x) >= 1, z3.Length(x) <= 12])
         res = Result("C11.TOK-CASE[{}]".format(pid), "z3", INCONCLUSIVE, seconds=dt, bounds="pattern {}: (?i) flag before the rule group; one z3 witness in three case variants".format(pid),
                      functions=["pattern %d" % pid])
         if not p.ci:
@@ -32,8 +37,19 @@ def tok_case(tier):
                 r2, _, _ = query([x == z3.StringVal(v), z3.InRe(x, p.plain)], 20000, False)
                 if r2 != "sat":
                     bad.append(v)
-            res.verdict = HOLDS if not bad else INCONCLUSIVE
-            res.detail = "witness %r closed under case" % ms if not bad else "case variants outside the translated language: %r" % bad
+            # the real compiled pattern must match each case variant wherever it matches the witness
+            key = "R%d" % pid
+            def spans(t):
+                return {m.span(key) for m in rr.finditer(t, overlapped=True)}
+            engine_bad = [v for v in (ms.lower(), ms.upper(), ms.title()) if len(v) == len(ms) and (0, len(ms)) in spans(ms) and (0, len(v)) not in spans(v)]
+            if engine_bad:
+                res.verdict = VIOLATED
+                res.cex = {"witness": ms, "variants_not_matched": engine_bad}
+                res.replay = {"kernel": "reproduced", "engine": "real compiled pattern"}
+                res.detail = "the compiled pattern matches %r but not its case variant(s) %r" % (ms, engine_bad)
+            else:
+                res.verdict = HOLDS if not bad else INCONCLUSIVE
+                res.detail = "witness %r closed under case (translation and real engine)" % ms if not bad else "case variants outside the translated language: %r" % bad
         else:
             res.detail = "no witness: " + r
         out.append(res)
